@@ -168,9 +168,9 @@ func (h *wHeap) Push(x any)   { *h = append(*h, x.(wEvent)) }
 func (h *wHeap) Pop() any     { o := *h; n := len(o); x := o[n-1]; *h = o[:n-1]; return x }
 
 var (
-	wClientAddr  = &net.UDPAddr{IP: net.IPv4(10, 0, 0, 1), Port: 9001}
-	wClientAddr2 = &net.UDPAddr{IP: net.IPv4(10, 0, 0, 77), Port: 7707} // after NAT rebinding
-	wServerAddr  = &net.UDPAddr{IP: net.IPv4(10, 0, 0, 2), Port: 443}
+	wClientAddr  = &net.UDPAddr{IP: net.IPv4(10, 0, 0, 1).To4(), Port: 9001}
+	wClientAddr2 = &net.UDPAddr{IP: net.IPv4(10, 0, 0, 77).To4(), Port: 7707} // after NAT rebinding
+	wServerAddr  = &net.UDPAddr{IP: net.IPv4(10, 0, 0, 2).To4(), Port: 443}
 )
 
 type World struct {
@@ -844,9 +844,9 @@ func wBegin(cfg *WConfig) {
 		wClientAddr2 = &net.UDPAddr{IP: net.ParseIP("2001:db8:1:2:7777::77"), Port: 7707}
 		wServerAddr = &net.UDPAddr{IP: net.ParseIP("2001:db8:ffff::2"), Port: 443}
 	} else {
-		wClientAddr = &net.UDPAddr{IP: net.IPv4(10, 0, 0, 1), Port: 9001}
-		wClientAddr2 = &net.UDPAddr{IP: net.IPv4(10, 0, 0, 77), Port: 7707}
-		wServerAddr = &net.UDPAddr{IP: net.IPv4(10, 0, 0, 2), Port: 443}
+		wClientAddr = &net.UDPAddr{IP: net.IPv4(10, 0, 0, 1).To4(), Port: 9001}
+		wClientAddr2 = &net.UDPAddr{IP: net.IPv4(10, 0, 0, 77).To4(), Port: 7707}
+		wServerAddr = &net.UDPAddr{IP: net.IPv4(10, 0, 0, 2).To4(), Port: 443}
 	}
 	// (drawn from crypto/rand, which the kernel has seeded for this run)
 	var vb [16]byte
